@@ -133,6 +133,7 @@ fn chain(e: &PdfError) -> String {
         PdfError::Parse { .. } | PdfError::Encoding { .. } => "Parse".into(),
         PdfError::Reference => "Reference".into(),
         PdfError::NoneError { .. } => "NoneError".into(),
+        PdfError::WrongDictionaryType { .. } => "WrongType".into(),
         PdfError::MissingEntry { field, .. } => format!("Missing({})", field),
         PdfError::Try { source, .. } => format!("Try>{}", chain(source)),
         PdfError::Shared { source } => format!("Shared>{}", chain(source)),
@@ -372,6 +373,7 @@ types! {
     "Vec<Option<Vec<Option<i32>>>>" => Vec<Option<Vec<Option<i32>>>>,
     "Option<Vec<Primitive>>" => Option<Vec<Primitive>>,
     "Vec<Option<Name>>" => Vec<Option<pdf::primitive::Name>>,
+    "PagesRc" => PagesRc,
     "Action" => Action,
     "Dest" => Dest,
     "MaybeNamedDest" => MaybeNamedDest,
